@@ -266,7 +266,10 @@ def generate(src=None):
     L.append("Definition CONTAINS_ORDER : list regex := [%s]." % "; ".join(cont))
     L.append("(* all patterns, sorted by name (indexed by the correspondence stream `spans`) *)")
     L.append("Definition PATTERNS : list regex := [%s]." % "; ".join(sorted(pats)))
-    js = {"patterns": pats, "mask": [[n, t] for n, t in mask], "contains": cont}
+    # the parsed ASTs too: the harness samples strings of L(pattern) by walking them
+    # ["eps"] ["wb"] ["cls", neg, [[lo,hi]..], d, s, w] ["seq", a, b] ["alt", a, b] ["rep", a, lo, ext|null]
+    js = {"patterns": pats, "mask": [[n, t] for n, t in mask], "contains": cont,
+          "ast": {n: parse_regex(pats[n]) for n in sorted(pats)}}
     return "\n".join(L) + "\n", js
 
 
